@@ -208,9 +208,18 @@ where
         "rtj",
         g(
             || {
-                serde_json::to_string(e)
-                    .ok()
-                    .and_then(|j| serde_json::from_str::<Enr<K>>(&j).ok())
+                // through a Value and through a reader as well: the parser must not depend on how
+                // serde hands the string over
+                let j = serde_json::to_string(e).ok()?;
+                let a = serde_json::from_str::<Enr<K>>(&j).ok()?;
+                let v = serde_json::to_value(e).ok()?;
+                let b = serde_json::from_value::<Enr<K>>(v).ok()?;
+                let c = serde_json::from_reader::<_, Enr<K>>(j.as_bytes()).ok()?;
+                if a == b && b == c && a.iter().collect::<Vec<_>>() == c.iter().collect::<Vec<_>>() {
+                    Some(a)
+                } else {
+                    None
+                }
             },
             |r| match r {
                 Some(o) => (same(&o) as u8).to_string(),
